@@ -467,7 +467,9 @@ def oracle_case(ctx, case, stats):
         else:
             ctx.tally("skipped/linear-underflow-exception")
         return
-    if underflow(mlin["inside"], mlog["inside"]) and not moderate:
+    # (steep family: entries of the linear inside values may underflow to 0 far below the winners; the node-level
+    #  premise of rule_check decides which nodes can be judged)
+    if underflow(mlin["inside"], mlog["inside"]) and not moderate and not steep:
         ctx.tally("skipped/linear-underflow-max")
         return
     if mlin["pm"] != mlog["pm"]:
